@@ -28,6 +28,11 @@ def run(ctx: Ctx):
     totals_last(ctx)
     stripe(ctx)
     signed_totals(ctx)
+    # positive / negative controls of the denominator rule (expected count on the correct tree: zero)
+    if len(sign_destroying(ast.parse("np.fmax(v, 0.0).sum(axis=0) + np.abs(v) + np.where(v > 0, v, 0)", mode="eval"))) != 3 or sign_destroying(ast.parse("np.nansum(v, axis=0)", mode="eval")):
+        from ..loader import AnalysisError
+
+        raise AnalysisError("signed-total.denominator: the controls are no longer recognised")
     public(ctx)
     from .common import no_shared_writes
 
@@ -117,6 +122,28 @@ def signed_totals(ctx: Ctx):
         ctx.held("signed-total", "share-of-sum classes (stripe and matrix)", f"{n} order comparison(s), none of a sum with zero", "")
 
 
+def sign_destroying(e: ast.AST):
+    """Calls inside `e` that discard the sign of their operand: clipping at zero (np.fmax / np.maximum / np.clip with a
+    zero bound, np.where on an order comparison with zero) and absolute values."""
+    def is_zero(x):
+        return isinstance(x, ast.Constant) and isinstance(x.value, (int, float)) and not isinstance(x.value, bool) and x.value == 0
+
+    out = []
+    for n in ast.walk(e):
+        if not isinstance(n, ast.Call):
+            continue
+        f = u(n.func)
+        tail = f.split(".")[-1]
+        args = list(n.args) + [k.value for k in n.keywords]
+        if f in ("np.abs", "np.absolute", "np.fabs", "abs") or (tail in ("__abs__",) and not n.args):
+            out.append(u(n)[:120])
+        elif tail in ("fmax", "maximum", "clip") and any(is_zero(a) for a in args):
+            out.append(u(n)[:120])
+        elif tail == "where" and n.args and any(isinstance(c, ast.Compare) and len(c.ops) == 1 and isinstance(c.ops[0], (ast.Lt, ast.LtE, ast.Gt, ast.GtE)) and any(is_zero(x) for x in [c.left] + c.comparators) for c in ast.walk(n.args[0])):
+            out.append(u(n)[:120])
+    return out
+
+
 def grid(ctx: Ctx, cname: str, axis):
     ci = ctx.repo.cls(MM, cname)
     kind, g, _ = matrix_templates(ctx.repo, ci)
@@ -162,6 +189,12 @@ def grid(ctx: Ctx, cname: str, axis):
             if not num or not den:
                 ctx.undecided("reduction-block.refs", where, f"numerator blocks {num}, denominator blocks {den}", f"S[{i}][{j}] / total of S[{den_i}][{den_j}]")
                 continue
+            clipped = sign_destroying(div.right)
+            if clipped:
+                ctx.violated("signed-total.denominator", where, clipped[0], "the total of the signed sums themselves (np.nansum of the block)",
+                             "sums are signed: a total over clipped / absolute values is not the total of the row / column, the shares no longer add to 1")
+            else:
+                ctx.held("signed-total.denominator", where, "no sign-destroying operation under the division line", "")
             ok = num == [(i, j)] and den == [(den_i, den_j)]
             ctx.ob("reduction-block.refs", where, f"numerator S{num}, denominator total of S{den}", f"numerator S[({i}, {j})], denominator total of S[({den_i}, {den_j})]", ok,
                    "the total is taken over BASE rows / columns only, for the numerator's own rows / columns")
@@ -172,6 +205,8 @@ def stripe(ctx: Ctx):
     e = expand(ctx.repo, ci, "base_values")
     v, cnf, snf, _ = equal(e, "self._cube_measures.cube_sum.sums / np.nansum(self._cube_measures.cube_sum.sums)")
     ctx.ob("stripe-share", f"{SM}::_ShareSum.base_values", cnf, snf, v, "strand share = sum / total of base rows")
+    clipped = sign_destroying(e)
+    ctx.ob("signed-total.denominator", f"{SM}::_ShareSum.base_values", clipped[:1] or "no sign-destroying operation", "the total of the signed sums themselves", not clipped, "sums are signed")
     e = expand(ctx.repo, ci, "subtotal_values", stop=lambda m: m.name == "base_values")
     ctx.check_expr("stripe-share", f"{SM}::_ShareSum.subtotal_values", e, "SumSubtotals.subtotal_values(self.base_values, self._rows_dimension)", "share of a subtotal = signed sum of its addends' shares")
 
